@@ -91,6 +91,10 @@ def check_case(ctx, case):
                     [e[0] for e in log_next], what), 'next-operation')
             Wn.world, Wn.journal, Wn.sites = 'REPLAY', [], {}
 
+            for st_ in PS.iter_steps(clean_prog['steps']):
+                if st_['t'] in ('in', 'out'):
+                    st_['reraise_framework'] = True
+
             def next_pf(recording):
                 o = PS.execute(next_cls, clean_prog)
                 if o[0] != 'ret':
@@ -112,6 +116,10 @@ def check_case(ctx, case):
                 if md.get(INC):
                     continue
                 fr.W.world, fr.W.journal, fr.W.sites = 'REPLAY', [], {}
+                # the replayed program lets framework errors (missing key) through instead of handling them
+                for st_ in PS.iter_steps(prog['steps']):
+                    if st_['t'] in ('in', 'out'):
+                        st_['reraise_framework'] = True
 
                 def playback_function(recording):
                     out = PS.execute(fr.cls, prog)
